@@ -149,10 +149,44 @@ def sql_cases(rng, tier):
             {"shutdown": True}, {"flip": {"path": "0_0/0.col", "bit": 8 * (300 + 37 * i) + 3}}, {"open": True},
             {"sql": "insert into t values (1000, 1)"}, {"sleep_ms": 2500},
             {"sql": "select a, b from t"}, {"sql": "select a, b from t"}, {"sql": "select a, b from u"}]})
+    # a keyed table with two row-sets: the sorted scan and the compactor read through the merge iterator; the flipped bit sits in a
+    # later block of the first row-set, met in the middle of the merge (the second row-set is inserted after the reopen: a shutdown
+    # leaves one row-set per table)
+    for i in range(2 if tier == "quick" else 10):
+        v1 = ",".join(f"({j},{j * 7 % 11})" for j in range(0, 800, 2))
+        v2 = ",".join(f"({j},{j * 7 % 11})" for j in range(1, 60, 2))
+        vu = ",".join(f"({j},{j * 7 % 11})" for j in range(50))
+        cases.append({"engine": "disk", "crc": True, "block": 128, "target": "0_0/0.col", "merge": True, "steps": [
+            {"sql": "create table t(a int primary key, b int)"}, {"sql": "create table u(a int not null, b int)"},
+            {"sql": f"insert into t values {v1}"}, {"sql": f"insert into u values {vu}"},
+            {"sql": "select a, b from t"}, {"sql": "select a, b from u"},
+            {"shutdown": True}, {"flip": {"path": rng.choice(["0_0/0.col", "0_0/1.col"]), "bit": 8 * (300 + 37 * i + rng.randrange(900)) + 3}}, {"open": True},
+            {"sql": f"insert into t values {v2}"},
+            {"sql": "select a, b from t"}, {"sql": "select a, b from t order by a"}, {"sleep_ms": 2500},
+            {"sql": "select a, b from t"}, {"sql": "select a, b from u"}]})
     return cases
 
 
 def sql_oracle(case, out):
+    if case.get("merge"):
+        def rows(o):
+            return sorted(json.dumps(r) for r in o["ok"][0]["rows"]) if "ok" in o else None
+        if not isinstance(out, list) or len(out) < 15:
+            if isinstance(out, list) and out and "panic" in out[-1] and out[-1].get("at") == "open":
+                return (None, "a corrupted column file makes Database::new_on_disk panic: no table is readable")
+            return (None, f"script stopped early: {json.dumps(out[-1] if isinstance(out, list) and out else out)[:200]}")
+        t0, u0 = rows(out[4]), rows(out[5])
+        if "ok" not in out[9]:
+            return None          # (the INSERT itself met the corrupted block: detected)
+        want = sorted(t0 + [json.dumps([["i32", j], ["i32", j * 7 % 11]]) for j in range(1, 60, 2)])
+        for k in (10, 11, 13):
+            r = rows(out[k])
+            if r is not None and r != want:
+                return (None, f"a merge scan over a corrupted row-set returned {len(r)} rows (Ok) instead of an error or the {len(want)} rows stored"
+                              f"{' after a compactor pass' if k == 13 else ''}")
+        if rows(out[14]) != u0:
+            return (None, "the unaffected table is no longer readable / differs")
+        return None
     if case.get("compaction"):
         def rows(o):
             return sorted(json.dumps(r) for r in o["ok"][0]["rows"]) if "ok" in o else None
